@@ -169,11 +169,15 @@ def expected_columns(m, variables, state=None):
     """variables: list of (name, location, columns) in join order -> (column names, rows of values)."""
     ncoord = 3 if has_z(m) else 2
     cols = ["x", "y"] + (["z"] if has_z(m) else [])
-    for _, _, vcols in variables:
-        cols += list(vcols)
+    member = []                 # per value column: the element ids the variable was exported for (None = all)
+    for v in variables:
+        cols += list(v[2])
+        member += [v[3] if len(v) > 3 else None] * len(v[2])
     a, b = STATE_AFFINE[state]
     raw = {(r["element_id"], r["node_id"]): r for r in raw_table(m)}
-    values = [[raw[key][c] if j < ncoord else a * raw[key][c] + b for j, c in enumerate(cols)] for key in expected_rows(m)]
+    values = [[raw[key][c] if j < ncoord else
+               (a * raw[key][c] + b if member[j - ncoord] is None or key[0] in member[j - ncoord] else math.nan)
+               for j, c in enumerate(cols)] for key in expected_rows(m)]
     return cols, values
 
 
@@ -198,6 +202,10 @@ def _events():
             var("V:%s:%s:STRESS_CAUCHY" % (slot, st), slot, st, "STRESS_CAUCHY", "ELEMENT_NODAL", ELNODAL_COLS["STRESS_CAUCHY"], False)
             var("V:%s:%s:E" % (slot, st), slot, st, "E", "ELEMENT_NODAL", ELNODAL_COLS["E"], False)
             var("V:%s:%s:EN" % (slot, st), slot, st, "EN", "ELEMENT_NODAL", ["v"], True)
+            # a variable that exists only on the elements of the stored element set: the frame handed over is a boolean-mask
+            # slice of the geometry's frame (rows of the other elements dropped, their ids still among the index levels)
+            var("V:%s:%s:ENSUB" % (slot, st), slot, st, "ENSUB", "ELEMENT_NODAL", ["v"], True)
+            ev["V:%s:%s:ENSUB" % (slot, st)]["subset"] = "elset"
             var("V:%s:%s:T" % (slot, st), slot, st, "T", "NODE", ["t"], True)
             # calls that cannot succeed
             var("V:%s:%s:BADCOL" % (slot, st), slot, st, "BADCOL", "NODE", ["nope"], True, bad="column")
@@ -253,7 +261,8 @@ class Model:
         elif k in ("node_set", "element_set"):
             self.sets.setdefault(ev["slot"], []).append((k, self.set_name(ev), self.set_ids(ev)))
         else:
-            self.vars.setdefault((ev["state"], ev["slot"]), []).append((ev["name"], ev["location"], list(ev["columns"] or [])))
+            sub = sorted(self.mesh_for(ev["slot"])["elset"]) if ev.get("subset") == "elset" else None
+            self.vars.setdefault((ev["state"], ev["slot"]), []).append((ev["name"], ev["location"], list(ev["columns"] or []), sub))
 
     def content_size(self):
         return (len(self.geom), sum(len(v) for v in self.sets.values()), sum(len(v) for v in self.vars.values()))
@@ -262,7 +271,7 @@ class Model:
 MENU_QUICK = [
     "G:tri3", "G:quad4i", "G:triquad", "G:tri3noz", "G:tri6i", "G:pent5", "G:tet4", "G:tethex", "G:hextet_i", "G:tet10", "G:pyr5",
     "NS:P", "ES:P", "NSX:P", "NS:S", "ES:S", "ESX:S",
-    "V:P:s1:DISPLACEMENT", "V:P:s1:STRESS_CAUCHY", "V:P:s2:EN", "V:S:s1:STRESS_CAUCHY", "V:S:s1:T",
+    "V:P:s1:DISPLACEMENT", "V:P:s1:STRESS_CAUCHY", "V:P:s2:EN", "V:S:s1:STRESS_CAUCHY", "V:S:s1:T", "V:P:s1:ENSUB",
     "V:P:s1:BADCOL", "V:S:s2:NOLOC",
 ]
 MENU_THOROUGH = MENU_QUICK + [
